@@ -21,7 +21,7 @@ func init() {
 	})
 }
 
-var paramPath = regexp.MustCompile(`p[0-9]+(\.[A-Za-z_][A-Za-z0-9_]*)+`)
+var paramPath = regexp.MustCompile(`\bp[0-9]+(\.[A-Za-z_][A-Za-z0-9_]*)*`)
 
 // flowPaths extracts parameter-rooted field paths mentioned by a value
 // (through shapes), including the elements of locally built slices and maps.
@@ -106,6 +106,81 @@ func flowPaths(a *FnA, v ssa.Value, depth int) map[string]bool {
 // builtFields: for a function that builds and returns (result idx) a struct,
 // the relation destination-field-path -> source parameter paths.
 func builtFields(a *FnA, resultIdx int) map[string]map[string]bool {
+	roots := map[ssa.Value]bool{}
+	for _, ret := range a.Returns() {
+		if resultIdx >= len(ret.Results) {
+			continue
+		}
+		structRoots(a, ret.Results[resultIdx], 0, roots)
+	}
+	return builtFieldsOf(a, roots)
+}
+
+// structRoots finds the local struct cells a struct value is loaded from.
+func structRoots(a *FnA, v ssa.Value, d int, roots map[ssa.Value]bool) {
+	if d > 4 || v == nil {
+		return
+	}
+	switch x := v.(type) {
+	case *ssa.MakeInterface:
+		structRoots(a, x.X, d+1, roots)
+	case *ssa.UnOp:
+		if al, ok := x.X.(*ssa.Alloc); ok {
+			roots[al] = true
+			ai := a.sh.allocInfo(al)
+			for _, wv := range ai.whole {
+				structRoots(a, wv, d+1, roots)
+			}
+		}
+	case *ssa.Phi:
+		for _, e := range x.Edges {
+			structRoots(a, e, d+1, roots)
+		}
+	}
+}
+
+// relOfValue: the field relation (field -> parameter paths of a's function) of a
+// struct value: a locally built struct, or the result of a converter function of
+// the repository, whose own relation is composed with the call's arguments.
+func relOfValue(w *World, a *FnA, v ssa.Value, depth int) map[string]map[string]bool {
+	switch x := v.(type) {
+	case *ssa.MakeInterface:
+		return relOfValue(w, a, x.X, depth)
+	case *ssa.Call:
+		callee := x.Call.StaticCallee()
+		if callee == nil || callee.Blocks == nil || depth > 2 || !w.IsProd(callee) {
+			return nil
+		}
+		ca := w.A(callee)
+		crel := builtFields(ca, 0)
+		out := map[string]map[string]bool{}
+		for dst, srcs := range crel {
+			out[dst] = map[string]bool{}
+			for sp := range srcs {
+				head, rest, _ := strings.Cut(sp, ".")
+				var idx int
+				if _, err := fmt.Sscanf(head, "p%d", &idx); err != nil || idx >= len(x.Call.Args) {
+					continue
+				}
+				for q := range flowPaths(a, x.Call.Args[idx], 0) {
+					if rest != "" {
+						q += "." + rest
+					}
+					out[dst][q] = true
+				}
+			}
+		}
+		return out
+	}
+	roots := map[ssa.Value]bool{}
+	structRoots(a, v, 0, roots)
+	if len(roots) == 0 {
+		return nil
+	}
+	return builtFieldsOf(a, roots)
+}
+
+func builtFieldsOf(a *FnA, roots map[ssa.Value]bool) map[string]map[string]bool {
 	rel := map[string]map[string]bool{}
 	add := func(dst string, v ssa.Value) {
 		if rel[dst] == nil {
@@ -114,33 +189,6 @@ func builtFields(a *FnA, resultIdx int) map[string]map[string]bool {
 		for p := range flowPaths(a, v, 0) {
 			rel[dst][p] = true
 		}
-	}
-	roots := map[ssa.Value]bool{}
-	for _, ret := range a.Returns() {
-		if resultIdx >= len(ret.Results) {
-			continue
-		}
-		var findRoot func(v ssa.Value, d int)
-		findRoot = func(v ssa.Value, d int) {
-			if d > 4 || v == nil {
-				return
-			}
-			switch x := v.(type) {
-			case *ssa.UnOp:
-				if al, ok := x.X.(*ssa.Alloc); ok {
-					roots[al] = true
-					ai := a.sh.allocInfo(al)
-					for _, wv := range ai.whole {
-						findRoot(wv, d+1)
-					}
-				}
-			case *ssa.Phi:
-				for _, e := range x.Edges {
-					findRoot(e, d+1)
-				}
-			}
-		}
-		findRoot(ret.Results[resultIdx], 0)
 	}
 	// prefix of every struct local that ends up (as a whole) inside the result
 	prefix := map[ssa.Value]string{}
@@ -316,44 +364,56 @@ func runC14(r *Run) {
 			continue
 		}
 		ma, ua := w.A(mf), w.A(uf)
-		// encoder: the jsonSparseProof literal passed to json.Marshal
-		var enc *Shape
+		// encoder: the field relation of the value passed to json.Marshal (built inline or by a helper)
+		var erel map[string]map[string]bool
 		for _, c := range ma.CallsTo("json.Marshal") {
-			enc = ma.sh.Of(CallArg(c, 0))
+			erel = relOfValue(w, ma, CallArg(c, 0), 0)
 		}
-		okE := false
-		if enc != nil {
-			_, okE = Match("lit:tmjson.jsonSparseProof{Height:p1.Height,Round:p1.Round,PubKeyHash:p1.PubKeyHash,$...}", enc)
-		}
-		// entries appended from the map range
+		okE := erel["Height"]["p1.Height"] && erel["Round"]["p1.Round"] && erel["PubKeyHash"]["p1.PubKeyHash"] && erel["Proofs"]["p1.Proofs"]
+		// entries appended from a range over the proof map, each block hash with its own signatures
 		entries := false
-		ma.Instrs(func(in ssa.Instruction) {
-			if c, ok := in.(*ssa.Call); ok {
-				if b, ok := c.Call.Value.(*ssa.Builtin); ok && b.Name() == "append" && len(c.Call.Args) == 2 {
-					s := ma.sh.Of(c.Call.Args[1]).String()
-					if strings.Contains(s, "lit:tmjson.jsonProofEntry{BlockHash:rk(p1.Proofs),Signatures:rv(p1.Proofs)}") {
-						entries = true
+		for _, fa := range append([]*FnA{ma}, calleeAnalyses(w, mf, 2)...) {
+			fa.Instrs(func(in ssa.Instruction) {
+				if c, ok := in.(*ssa.Call); ok {
+					if b, ok := c.Call.Value.(*ssa.Builtin); ok && b.Name() == "append" && len(c.Call.Args) == 2 {
+						for _, el := range sliceElemShapes(fa.sh.Of(c.Call.Args[1])) {
+							if _, ok := Match("lit:tmjson.jsonProofEntry{BlockHash:rk($m),Signatures:rv($m)}", el); ok {
+								entries = true
+							}
+						}
 					}
 				}
-			}
-		})
-		r.Check(okE && entries, "C14.1", "tmconsensus."+k+"SparseProof(encoded)", w.Pos(mf.Pos()), "height, round, pub key hash and every (block hash, signatures) entry are written: "+fmt.Sprint(enc))
-		// decoder
+			})
+		}
+		var erelS []string
+		for f, srcs := range erel {
+			erelS = append(erelS, f+"<-"+strings.Join(setKeys(srcs), "|"))
+		}
+		sort.Strings(erelS)
+		r.Check(okE && entries, "C14.1", "tmconsensus."+k+"SparseProof(encoded)", w.Pos(mf.Pos()), "height, round, pub key hash and every (block hash, signatures) entry are written: "+strings.Join(erelS, " "))
+		// decoder (inline or through helpers of the package)
 		okD, okEnt := false, false
-		ua.Instrs(func(in ssa.Instruction) {
-			switch x := in.(type) {
-			case *ssa.Store:
-				v := ua.sh.Of(x.Val)
-				if _, ok := Match("lit:tmconsensus."+k+"SparseProof{Height:$j.Height,Round:$j.Round,PubKeyHash:$j.PubKeyHash,Proofs:make:map()}", v); ok && ua.sh.Of(x.Addr).String() == "p2" {
-					okD = true
+		for _, fa := range append([]*FnA{ua}, calleeAnalyses(w, uf, 2)...) {
+			fa.Instrs(func(in ssa.Instruction) {
+				var vals []ssa.Value
+				switch x := in.(type) {
+				case *ssa.Store:
+					vals = append(vals, x.Val)
+				case *ssa.Return:
+					vals = append(vals, x.Results...)
+				case *ssa.MapUpdate:
+					key, val := fa.sh.Of(x.Key).String(), fa.sh.Of(x.Value).String()
+					if strings.HasSuffix(key, ".BlockHash") && strings.HasSuffix(val, ".Signatures") && strings.TrimSuffix(key, ".BlockHash") == strings.TrimSuffix(val, ".Signatures") {
+						okEnt = true
+					}
 				}
-			case *ssa.MapUpdate:
-				key, val := ua.sh.Of(x.Key).String(), ua.sh.Of(x.Value).String()
-				if strings.HasSuffix(key, ".BlockHash") && strings.HasSuffix(val, ".Signatures") && strings.TrimSuffix(key, ".BlockHash") == strings.TrimSuffix(val, ".Signatures") {
-					okEnt = true
+				for _, v := range vals {
+					if _, ok := Match("lit:tmconsensus."+k+"SparseProof{Height:$j.Height,Round:$j.Round,PubKeyHash:$j.PubKeyHash,$...}", fa.sh.Of(v)); ok {
+						okD = true
+					}
 				}
-			}
-		})
+			})
+		}
 		r.Check(okD && okEnt, "C14.1", "tmconsensus."+k+"SparseProof(decoded)", w.Pos(uf.Pos()), "decoder rebuilds height, round, pub key hash and files each entry's signatures under that entry's own block hash")
 	}
 	r.Expect("C14.1", 60, "field relation obligations")
@@ -491,4 +551,48 @@ func runC14(r *Run) {
 		}
 	}
 	r.Expect("C14.4", 5, "totality obligations")
+}
+
+// calleeAnalyses: analyses of the repository functions statically called from fn, transitively up to depth.
+func calleeAnalyses(w *World, fn *ssa.Function, depth int) []*FnA {
+	seen := map[*ssa.Function]bool{fn: true}
+	var out []*FnA
+	var walk func(f *ssa.Function, d int)
+	walk = func(f *ssa.Function, d int) {
+		if d == 0 {
+			return
+		}
+		for _, b := range f.Blocks {
+			for _, in := range b.Instrs {
+				c := callCommon(in)
+				if c == nil {
+					continue
+				}
+				callee := c.StaticCallee()
+				if callee == nil || callee.Blocks == nil || seen[callee] || !w.IsProd(callee) {
+					continue
+				}
+				seen[callee] = true
+				out = append(out, w.A(callee))
+				walk(callee, d-1)
+			}
+		}
+	}
+	walk(fn, depth)
+	return out
+}
+
+// sliceElemShapes: the element shapes of an appended slice argument (a varargs list or a single element).
+func sliceElemShapes(s *Shape) []*Shape {
+	if s == nil {
+		return nil
+	}
+	if s.K == "list" || s.K == "phi" {
+		var out []*Shape
+		for _, a := range s.A {
+			out = append(out, sliceElemShapes(a)...)
+		}
+		return out
+	}
+	return []*Shape{s}
 }
